@@ -74,7 +74,11 @@ Inductive sty :=
                                                    projected as STabRef, every other attribute as itself *)
 | STabRef (opt:bool) (app ty:name)              (* a TypeRef attribute of a relation, as convertTableRef reads it:
                                                    app = Context.Appname.Part[0], ty = Ref.Path[0] *)
-| SUnion (opt:bool) (alts:list sty).            (* !union (Type_OneOf_): MapType has no case for it *)
+| SUnion (opt:bool) (alts:list sty)             (* !union (Type_OneOf_): MapType has no case for it *)
+| SUntyped (opt:bool).                          (* a *sysl.Type whose oneof `Type` is nil: what the parser builds for the query
+                                                   parameter `?status=Status` (a bare name that is not a native type, see
+                                                   EnterQuery_var `case ctx.Name_str() != nil: type1 = &sysl.Type{}`); no case
+                                                   of MapType's switch matches *)
 
 Record sparam := { sp_name : name; sp_body : bool; sp_ty : sty }.     (* sp_body = HasPattern(attrs, "body") *)
 Record qparam := { q_name : name; q_ty : sty }.
@@ -89,6 +93,20 @@ Inductive ekey := KRest (method:string) (path:name) | KPlain (n:name).   (* stri
 Record sendpoint := { e_key : ekey; e_params : list sparam; e_query : list qparam; e_url : list qparam; e_rets : list sret }.
 Record sapp := { a_name : name; a_n200 : name (* the number of the string "200" *);
                  a_types : list (name*sty); a_endpoints : list (name*sendpoint) }.
+
+(* the statements of an endpoint, as far as return statements are concerned (second pass).  mapResponse and the Swagger
+   exporter's exportChildStmts read the list syslwrapper.ReturnStatements gives: the return statements in source order,
+   also those inside the statement kinds `desc` (the arms of its type switch that recurse; none in the tree as found,
+   where only top-level statements were read).  kind = the oneof case of the statement: Cond (if / else), Loop (while /
+   until), LoopN, Foreach, Alt (one of: the statements of all its choices, in order), Group *)
+Inductive sstmt := StRet (r:sret) | StNest (kind:string) (body:list sstmt) | StLeaf.
+Fixpoint reach (desc:list string) (s:sstmt) : list sret :=
+  match s with
+  | StRet r => [r]
+  | StNest k body => if existsb (String.eqb k) desc then flat_map (reach desc) body else []
+  | StLeaf => []
+  end.
+Definition reach_rets (desc:list string) (ss:list sstmt) : list sret := flat_map (reach desc) ss.
 
 (* ------------------------------------------------------------------ syslwrapper *)
 Inductive wtype := WT (kind:string) (opt:bool) (ref:name*name) (items:list wtype) (enum:list (N*name)) (props:list (name*wtype)).
@@ -126,6 +144,7 @@ Fixpoint map_type (o:oracle) (t:sty) : wtype :=
          (mset_all (range o (map (fun kv : name*sty => let (k,v) := kv in (k, map_type o v)) fields)) [])
   | STabRef _ a t => WT "ref" false (a, t) [] [] []   (* &Type{Type: "ref", Reference: ..}: the attribute's `?` is not copied *)
   | SUnion op _ => WT "" op nor [] [] []          (* simpleType keeps its zero value *)
+  | SUntyped op => WT "" op nor [] [] []          (* no case matches either: kind "", Optional copied *)
   end%string.
 
 Record wparam := { wp_in : string; wp_ty : wtype }.
